@@ -103,6 +103,7 @@ class TensorNames(metaclass=Singleton):
         if not isinstance(expr, Expr):
             raise Inputerror("Expr needs to be provided as Expr instance.")
 
+        all_subs = []
         for field in fields(self):
             new = getattr(self, field.name)
             if field.default == new:  # nothing to do
@@ -125,8 +126,13 @@ class TensorNames(metaclass=Singleton):
             else:
                 subs = [(field.default, new)]
 
-            for old, new in subs:
-                expr.rename_tensor(old, new)
+            all_subs.extend(subs)
+        # rename simultaneously: a new name might be the default name of
+        # another tensor, which has to be renamed too (or must stay as it is)
+        for i, (old, _) in enumerate(all_subs):
+            expr.rename_tensor(old, f"_tmp_name_{i}_")
+        for i, (_, new) in enumerate(all_subs):
+            expr.rename_tensor(f"_tmp_name_{i}_", new)
         return expr
 
 
